@@ -472,7 +472,9 @@ int main (int argc, char **argv)
 			int n = mpq_QSget_colcount (P), m = mpq_QSget_rowcount (P), rv, st = -1;
 			int algo = qsx_tok[2][0] == 'D' ? DUAL_SIMPLEX : PRIMAL_SIMPLEX;
 			mpq_t *x = mpq_EGlpNumAllocArray (n + m + 1), *y = mpq_EGlpNumAllocArray (m + 1);
-			QSbasis *B = (QSbasis *) calloc (1, sizeof (QSbasis));
+			/* SOLVE EXACT P|D            cold: an empty QSbasis that receives the final basis
+			 * SOLVE EXACT P|D <cs> <rs>  warm: the given statuses are the starting basis and are replaced by the final one */
+			QSbasis *B = qsx_ntok >= 5 ? mk_basis (qsx_tok[3], qsx_tok[4]) : (QSbasis *) calloc (1, sizeof (QSbasis));
 			rv = QSexact_solver (P, x, y, B, algo, &st);
 			printf ("SOLVE EXACT %d %d\n", rv, st);
 			fputs ("X", stdout); qsx_print_qarr (stdout, x, n); putchar ('\n');
